@@ -34,7 +34,7 @@ func init() {
 		NotCovered:  "equality of the error sets for every program; side effects of deprecation warnings",
 		Rules:       []string{"GATE", "COMPILE-PURE", "CHECK-AGREE"},
 		Patterns:    []string{"./pkg/eval"},
-		Run:         runC16,
+		Run:         func(p *core.Program, r *core.Report) { runC16(p, r); runCheckModeInert(p, r) },
 		MinCounts:   map[string]int{"GATE": 4, "COMPILE-PURE": 1, "CHECK-AGREE": 3},
 		Trusted:     trustedBase,
 		Controls: []core.Control{
@@ -42,6 +42,8 @@ func init() {
 			{Name: "exec-despite-parse-error", Rule: "GATE", File: "pkg/eval/frame.go", Old: "\ttree, err := parse.Parse(src, parse.Config{WarningWriter: fm.ErrorFile()})\n\tif err != nil {\n\t\treturn nil, nil, err\n\t}\n\tlocal := fm.local", New: "\ttree, _ := parse.Parse(src, parse.Config{WarningWriter: fm.ErrorFile()})\n\tlocal := fm.local", Fire: true},
 			{Name: "compile-mutates-callers-namespace", Rule: "COMPILE-PURE", File: "pkg/eval/compiler.go", Old: "\tg = g.clone()\n", New: "", Fire: true, Quick: true},
 			{Name: "check-compiles-against-empty-builtin", Rule: "CHECK-AGREE", File: "pkg/eval/eval.go", Old: "\t_, autofixes, compileErr := compile(b.static(), g.static(), modules, tree, w)", New: "\t_, autofixes, compileErr := compile(new(Ns).static(), g.static(), modules, tree, w)\n\t_ = b", Fire: true},
+			{Name: "autofix-also-declares-the-module", Rule: "CHECK-AGREE", File: "pkg/eval/compiler.go", Old: "\t\tcp.autofixes = append(cp.autofixes, \"use \"+mod)\n", New: "\t\tcp.autofixes = append(cp.autofixes, \"use \"+mod)\n\t\tcp.thisScope().add(mod + NsSuffix)\n", Fire: true, Want: "autofixUnresolvedVar"},
+			{Name: "benign-autofix-deduplicated", Rule: "CHECK-AGREE", File: "pkg/eval/compiler.go", Old: "\t\tcp.autofixes = append(cp.autofixes, \"use \"+mod)\n", New: "\t\tif fix := \"use \" + mod; !sliceContains(cp.autofixes, fix) {\n\t\t\tcp.autofixes = append(cp.autofixes, fix)\n\t\t}\n", Fire: false},
 			{Name: "benign-error-tests-swapped-order", Rule: "GATE", File: "pkg/eval/frame.go", Old: "\tif err != nil {\n\t\treturn nil, nil, err\n\t}\n\tnewLocal, exec := op.prepare(newFm)", New: "\tif err == nil {\n\t\tnewLocal, exec := op.prepare(newFm)\n\t\treturn newLocal, exec, nil\n\t}\n\treturn nil, nil, err\n}\n\nfunc unusedPrepare(op nsOp, newFm *Frame) (*Ns, func() Exception, error) {\n\tnewLocal, exec := op.prepare(newFm)", Fire: false},
 		},
 	})
@@ -160,7 +162,7 @@ func runC22(p *core.Program, r *core.Report) {
 		// on failure: delete with same key on every path
 		construct := "eval.evalModule deletes the entry on every failing path"
 		if del == nil || del.Call.Args[1] != ssa.Value(keyPrm) {
-			r.Bad("INSTALL-PAIR", construct, p.InsPos(exec), "a module whose evaluation failed stays in the module table: a later import silently gets the half-initialised namespace instead of evaluating the module again")
+			r.Bad("INSTALL-PAIR", construct, p.InsPos(exec), "the failing path does not remove exactly the module's own entry (no deleteModule(key) with the key it was installed under): either the failed module stays in the table and a later import silently gets the half-initialised namespace, or something other than that one entry is removed")
 		} else {
 			// failing edge of `exec() != nil`
 			okAll := false
@@ -200,6 +202,55 @@ func runC22(p *core.Program, r *core.Report) {
 			}
 		}
 	}
+
+	// TABLE-KEYED: after construction the module table changes one key at a
+	// time (m[k] = ns, delete(m, k)); it is never replaced wholesale, which
+	// would forget modules loaded in the meantime and evaluate them again
+	ntab := 0
+	for _, fn := range p.FnsInPkg(pkgEval) {
+		core.Instrs(fn, func(ins ssa.Instruction) {
+			var fa *ssa.FieldAddr
+			kind := ""
+			switch x := ins.(type) {
+			case *ssa.Store:
+				if f, ok := x.Addr.(*ssa.FieldAddr); ok {
+					fa, kind = f, "replaces"
+				}
+			case *ssa.MapUpdate:
+				if addr, ok := core.IsLoad(x.Map); ok {
+					if f, ok := addr.(*ssa.FieldAddr); ok {
+						fa, kind = f, "sets one key of"
+					}
+				}
+			case *ssa.Call:
+				if b, ok := x.Call.Value.(*ssa.Builtin); ok && b.Name() == "delete" {
+					if addr, ok := core.IsLoad(x.Call.Args[0]); ok {
+						if f, ok := addr.(*ssa.FieldAddr); ok {
+							fa, kind = f, "deletes one key of"
+						}
+					}
+				}
+			}
+			if fa == nil {
+				return
+			}
+			n, f := core.FieldName(fa)
+			if n == nil || n.Obj().Name() != "Evaler" || n.Obj().Pkg() == nil || n.Obj().Pkg().Path() != pkgEval || f != "modules" {
+				return
+			}
+			ntab++
+			construct := core.FnKey(fn) + " " + kind + " Evaler.modules"
+			switch {
+			case kind != "replaces":
+				r.OK("INSTALL-PAIR", construct, p.InsPos(ins), "single-key update")
+			case freshBase(fa.X):
+				r.OK("INSTALL-PAIR", construct, p.InsPos(ins), "initialisation of a new Evaler")
+			default:
+				r.Bad("INSTALL-PAIR", construct, p.InsPos(ins), "the whole module table of a live Evaler is replaced: modules installed since the replaced table was built are forgotten, so their next import evaluates them a second time and importers hold different namespaces")
+			}
+		})
+	}
+	r.Anchor("INSTALL-PAIR", "writes to Evaler.modules", ntab >= 2)
 
 	// KEY-IS-PATH: a module read from a file is cached under the path it was
 	// read from, whatever spec led to it (two routes to one file must meet
